@@ -1,7 +1,7 @@
 (* C07 — Inlining a call preserves the caller's behaviour.  Property theorems only. *)
 From Coq Require Import List ZArith Bool.
 Import ListNotations.
-From PV Require Import Fort.Syntax Fort.Sem Fort.Facts3 C07.Model C07.Proofs C07.Fresh C07.Refuted C07.Examples.
+From PV Require Import Fort.Syntax Fort.Sem Fort.Facts3 C07.Model C07.Proofs C07.Fresh C07.Refuted C07.Examples C07.Stride.
 Open Scope Z_scope.
 
 (* FULL statement (FALSE of the unchanged code — see the _refuted theorems below):
@@ -96,3 +96,53 @@ Example C07_nonvacuous :
   In 5%nat (cs_own c_ok ++ cs_outer c_ok) /\ ~ In 5%nat (flat_map actual_names (cs_actuals c_ok)).
 Proof. exact sound_nonvacuous. Qed.
 Print Assumptions C07_nonvacuous.
+
+(* ---- section actuals a(lo:hi:st): by-reference meaning (coq/C07/Stride.v) ----
+   exec_call_strided re-indexes the callee's accesses to the formal and runs exec_call on the contiguous
+   view; the location reached by x(k) is a(lo + (k - lb) * st), lo and st taken at the call: *)
+Theorem C07_strided_view_index : forall st k kv v s lb,
+  eval st k = Some kv ->
+  map (eval st) (merge_sem [SOff (v - lb)] [restride_idx lb s k]) = [Some (sec_index v s lb kv)].
+Proof. exact strided_view_index. Qed.
+Print Assumptions C07_strided_view_index.
+
+(* unit stride: the index shifting of inline_apply is exactly that mapping (partial: same sufficient
+   condition as C07_inline_sound_partial; the full statement fails for the same reasons) *)
+Theorem C07_section_unit_stride_sound_partial : forall c ren ss,
+  accept_impl c = true -> in_fragment c = true -> actual_indices_invariant c ren = true ->
+  forall fuel st, eval st (ss_stride ss) = Some 1 ->
+  bind_all st (cs_formals c) (cs_actuals c) <> None ->
+  obs_eq (exec fuel (inline_apply c ren) st) (exec_call_strided fuel c ss ren st).
+Proof. exact section_unit_stride_sound_. Qed.
+Print Assumptions C07_section_unit_stride_sound_partial.
+
+(* non-unit stride (variable n = 2; literal -1): the contiguous mapping apply() would use is not the call,
+   and accept_impl refuses every section whose stride is not the literal 1 (literal 2, variable, negated,
+   expression) *)
+Theorem C07_nonunit_stride_must_be_refused :
+  (forall f a dims, snd f <> [] -> arg_ok f (AArr a dims false) = false) /\
+  (stride_unit (ELit 2) = false /\ stride_unit (EVar 3%nat) = false /\ stride_unit (EUn Neg (ELit 1)) = false /\
+   stride_unit (EUn Neg (EVar 3%nat)) = false /\ stride_unit (EBin Add (EVar 3%nat) (ELit 0)) = false /\
+   stride_unit (ELit 1) = true) /\
+  accept_impl c_stride_var = false /\ accept_impl c_stride_rev = false /\
+  ~ obs_eq (exec 20 (inline_apply c_stride_var ren_k) st_n2) (exec_call_strided 20 c_stride_var ss_var ren_k st_n2) /\
+  ~ obs_eq (exec 20 (inline_apply c_stride_rev ren_k) st_n2) (exec_call_strided 20 c_stride_rev ss_rev ren_k st_n2) /\
+  (exists s' tr, exec_call_strided 20 c_stride_var ss_var ren_k st_n2 = Ok s' tr CNormal /\
+     val s' (2%nat, [1]) = 11 /\ val s' (2%nat, [3]) = 12 /\ val s' (2%nat, [5]) = 13 /\ val s' (2%nat, [2]) = 0) /\
+  (exists s' tr, exec_call_strided 20 c_stride_rev ss_rev ren_k st_n2 = Ok s' tr CNormal /\
+     val s' (2%nat, [8]) = 11 /\ val s' (2%nat, [7]) = 12 /\ val s' (2%nat, [6]) = 13 /\ val s' (2%nat, [9]) = 0).
+Proof. exact nonunit_stride_must_be_refused_. Qed.
+Print Assumptions C07_nonunit_stride_must_be_refused.
+
+Example C07_section_unit_nonvacuous :
+  accept_impl c_stride_one = true /\ in_fragment c_stride_one = true /\
+  actual_indices_invariant c_stride_one ren_k = true /\ eval st_n2 (ss_stride ss_one) = Some 1 /\
+  bind_all st_n2 (cs_formals c_stride_one) (cs_actuals c_stride_one) <> None /\
+  inline_apply c_stride_one ren_k =
+    [SDo 5%nat (ELit 1) (ELit 3) (ELit 1)
+       [SAssign 2%nat [EBin Add (EBin Sub (EVar 5%nat) (ELit 1)) (EVar 3%nat)] (EBin Add (ELit 10) (EVar 5%nat))]] /\
+  (exists s' tr, exec_call_strided 20 c_stride_one ss_one ren_k st_n2 = Ok s' tr CNormal /\
+     val s' (2%nat, [2]) = 11 /\ val s' (2%nat, [3]) = 12 /\ val s' (2%nat, [4]) = 13 /\
+     val s' (2%nat, [sec_index 2 1 1 3]) = 13).
+Proof. exact section_unit_nonvacuous. Qed.
+Print Assumptions C07_section_unit_nonvacuous.
